@@ -132,6 +132,8 @@ class _PrepInterp(_UnitsInterp):
                 return isinstance(args[0], Sym) and args[0].op == "qty"
             if n == "_check_input_shape":
                 return args[0]
+        if isinstance(fv, Sym) and fv.op == "copy_of" and not args:
+            return fv.args[0]  # (a copy has the same units and numbers: the units table abstracts ownership away)
         return super().call_hook(fv, args, kwargs, node, mod)
 
     def get_attr(self, obj, attr, node, mod):
@@ -149,6 +151,8 @@ class _PrepInterp(_UnitsInterp):
             return 2
         if short == "shape":
             return Sym("shape_of", args[0])
+        if short in ("copy", "deepcopy") and len(args) == 1:
+            return args[0]
         if short in ("ravel", "asarray", "broadcast_to"):
             # which mask entries are applied is R37p's question; the units table abstracts the mask away
             return args[0]
@@ -163,6 +167,17 @@ class _PrepInterp(_UnitsInterp):
             r = self.decide(Sym("same_shape", left, right), node)
             return r if isinstance(op, ast.Eq) else not r
         return super().sym_compare(op, left, right, node)
+
+
+def _uncopied(v):
+    """The same term without copy markers (`x.copy()`, `np.copy(x)`, `copy.copy(x)`): a copy has the same units and numbers."""
+    if isinstance(v, tuple):
+        return tuple(_uncopied(x) for x in v)
+    if isinstance(v, Sym):
+        if v.op in ("copy", "copied") and v.args:
+            return _uncopied(v.args[0])
+        return Sym(v.op, *[_uncopied(x) for x in v.args])
+    return v
 
 
 def r36_units(repo, sink):
@@ -244,12 +259,15 @@ def r36_units(repo, sink):
     # prepare: published data with foreign units is converted (masked or not), equivalent units pass
     pf = repo.func("src/finam/data/tools/core.py", "prepare")
     worst = None
-    for compatible, equivalent, masked in itertools.product((True, False), (True, False), (True, False)):
+    for compatible, equivalent, masked, forced in itertools.product((True, False), (True, False), (True, False), (False, True)):
         if equivalent and not compatible:
             continue
         it = _PrepInterp(repo, compatible, equivalent)
         info = Obj(label="info", fields={"units": b, "is_masked": masked, "mask": Sym("M"), "fill_value": None, "grid": None})
-        outs = it.run_all(lambda it=it, info=info: it.run(pf, [Sym("qty", Sym("mag"), a), info], {"report_conversion": True}))
+        kw = {"report_conversion": True}
+        if forced:
+            kw["force_copy"] = True  # (a requested copy changes who owns the memory, never units or numbers)
+        outs = it.run_all(lambda it=it, info=info, kw=kw: _uncopied(it.run(pf, [Sym("qty", Sym("mag"), a), info], dict(kw))))
         X = Sym("masked", Sym("mag")) if masked else Sym("mag")
         if not compatible:
             want = ("raise", "FinamDataError")
@@ -261,15 +279,16 @@ def r36_units(repo, sink):
             got = ("raise", val.name) if kind == "raise" else val
             if got != want:
                 worst = worst or (f"quantity in unit a published into an output declared in unit b (dimension-equal={compatible}, factor-one={equivalent}, "
-                                  f"mask in the info={masked}): prepare yields {got!r}, expected {want!r}")
+                                  f"mask in the info={masked}{', force_copy=True' if forced else ''}): prepare yields {got!r}, expected {want!r}")
     sink.check(worst is None, "R36", "units:prepare-table", pf,
                ok="prepare converts compatible non-equivalent units (also when it wraps the data into a masked array), refuses incompatible ones",
                bad=worst or "")
     # check(): refuses data whose units are incompatible with the info, accepts compatible ones
     cf = repo.func("src/finam/data/tools/core.py", "check")
     worst = None
-    for compatible, has_time in itertools.product((True, False), (True, False)):
+    for compatible, has_time, rank in itertools.product((True, False), (True, False), (2, 0)):
         it = _CheckInterp(repo, compatible, False, has_time)
+        it.rank = rank  # (rank 0: grid-less scalar payload, nothing behind the time axis)
         info = Obj(label="info", fields={"units": b, "is_masked": False, "mask": None, "fill_value": None, "grid": None})
         try:
             got = it.run(cf, [Sym("qty", Sym("mag"), a), info])
@@ -277,7 +296,8 @@ def r36_units(repo, sink):
             got = ("raise", r.name)
         want = None if (compatible and has_time) else ("raise", "FinamDataError")
         if got != want:
-            worst = worst or f"check(data in unit a, info in unit b) with dimension-equal={compatible}, time axis present={has_time}: {got!r}, expected {want!r}"
+            worst = worst or (f"check({'scalar ' if rank == 0 else ''}data in unit a, info in unit b) with dimension-equal={compatible}, time axis present={has_time}: "
+                              f"{got!r}, expected {want!r}")
     sink.check(worst is None, "R36", "units:refusal:check", cf, ok="check refuses incompatible units and a missing time axis with FinamDataError, accepts otherwise", bad=worst or "")
 
 
@@ -297,8 +317,15 @@ class _CheckInterp(_PrepInterp):
 
     def get_attr(self, obj, attr, node, mod):
         if isinstance(obj, Sym) and obj.op == "qty" and attr == "shape":
-            return (Sym("t"), Sym("n0"), Sym("n1"))
+            return (Sym("t"), Sym("n0"), Sym("n1"))[:1 + getattr(self, "rank", 2)]
+        if isinstance(obj, Sym) and obj.op == "qty" and attr == "units":
+            return obj.args[1]
         return super().get_attr(obj, attr, node, mod)
+
+    def sym_compare(self, op, left, right, node):
+        if isinstance(left, Sym) and isinstance(right, Sym) and left.op == right.op == "unit" and isinstance(op, (ast.Eq, ast.NotEq)):
+            return (left == right) == isinstance(op, ast.Eq)  # (the two unit labels of the table are different labels)
+        return super().sym_compare(op, left, right, node)
 
 
 # =========================================================================== R37
@@ -1252,8 +1279,9 @@ def r15g_gridcompat(repo, sink):
                               "to be rejected with a metadata error")
             continue
         except (Undecided, AnalysisError) as exc:
-            worst = worst or f"{name}: {exc}"
-            continue
+            # (a construct outside the vocabulary of this table is not a verdict on the code)
+            sink.unknown("R15", "compat-table:UnstructuredGrid", fu, f"{name}: outside vocabulary: {exc}")
+            return
         if bool(got) != want:
             worst = worst or f"{name}: compatible_with is {bool(got)}, must be {want}"
     sink.check(worst is None, "R15", "compat-table:UnstructuredGrid", fu,
